@@ -41,7 +41,7 @@ func (o TOp) operation(db *dyn.DB) ovsdb.Operation {
 	case "insert":
 		return ovsdb.Operation{Op: ovsdb.OperationInsert, Table: o.Table, UUID: o.UUID, UUIDName: o.Name, Row: db.OvsRow(o.Table, o.Row)}
 	case "select":
-		return ovsdb.Operation{Op: ovsdb.OperationSelect, Table: o.Table, Where: toOvsConds(cols, o.Where), Columns: o.Cols}
+		return ovsdb.Operation{Op: ovsdb.OperationSelect, Table: o.Table, Where: toOvsConds(cols, o.Where), Columns: o.selectCols()}
 	case "update":
 		return ovsdb.Operation{Op: ovsdb.OperationUpdate, Table: o.Table, Where: toOvsConds(cols, o.Where), Row: db.OvsRow(o.Table, o.Row)}
 	case "mutate":
@@ -67,6 +67,19 @@ func (o TOp) operation(db *dyn.DB) ovsdb.Operation {
 	}
 }
 
+// selectCols: a select that names columns also asks for _uuid (the harness identifies result rows by it)
+func (o TOp) selectCols() []string {
+	if len(o.Cols) == 0 {
+		return nil
+	}
+	for _, c := range o.Cols {
+		if c == "_uuid" {
+			return o.Cols
+		}
+	}
+	return append(append([]string{}, o.Cols...), "_uuid")
+}
+
 func symList(s *val.Syms, l []string) string {
 	var out []string
 	for _, x := range l {
@@ -81,7 +94,7 @@ func (o TOp) coq(s *val.Syms) string {
 	case "insert":
 		return fmt.Sprintf("LOInsert %d%%N %d%%N %s", t, s.ID(o.UUID), dyn.CoqRow(s, o.Row))
 	case "select":
-		return fmt.Sprintf("LOSelect %d%%N %s %s", t, coqConds(s, o.Where), symList(s, o.Cols))
+		return fmt.Sprintf("LOSelect %d%%N %s %s", t, coqConds(s, o.Where), symList(s, o.selectCols()))
 	case "update":
 		return fmt.Sprintf("LOUpdate %d%%N %s %s", t, coqConds(s, o.Where), dyn.CoqRow(s, o.Row))
 	case "mutate":
